@@ -120,6 +120,8 @@ pub fn as_blocks_mut<N: cipher::array::ArraySize>(b: &mut [u8]) -> &mut [Array<u
 pub struct EncScript<'a, BS: BlockSizes> {
     pub blocks: InOutBuf<'a, 'a, Array<u8, BS>>,
     pub seed: u64,
+    /// the buffer is processed in place: the backend's *_inplace methods may be used
+    pub inplace: bool,
 }
 impl<BS: BlockSizes> BlockSizeUser for EncScript<'_, BS> {
     type BlockSize = BS;
@@ -144,7 +146,7 @@ impl<BS: BlockSizes> BlockModeEncClosure for EncScript<'_, BS> {
                 let (head, tail) = rest.split_at(k);
                 backend.encrypt_tail_blocks(head);
                 rest = tail;
-            } else if c == 0 && rng.chance(1, 3) {
+            } else if c == 0 && rng.chance(1, 3) && self.inplace {
                 // the in-place convenience of the backend: legal on any buffer pair once the input
                 // has been copied to the output side
                 let k = if w > 1 { 1 + rng.usize(n.min(w - 1)) } else { 1 };
@@ -155,7 +157,7 @@ impl<BS: BlockSizes> BlockModeEncClosure for EncScript<'_, BS> {
                     *b.get_out() = v;
                 }
                 let out = head.get_out();
-                if k == 1 || w == 1 {
+                if w == 1 || (k == 1 && rng.chance(1, 2)) {
                     for b in out.iter_mut() {
                         backend.encrypt_block_inplace(b);
                     }
@@ -177,6 +179,7 @@ impl<BS: BlockSizes> BlockModeEncClosure for EncScript<'_, BS> {
 pub struct DecScript<'a, BS: BlockSizes> {
     pub blocks: InOutBuf<'a, 'a, Array<u8, BS>>,
     pub seed: u64,
+    pub inplace: bool,
 }
 impl<BS: BlockSizes> BlockSizeUser for DecScript<'_, BS> {
     type BlockSize = BS;
@@ -201,7 +204,7 @@ impl<BS: BlockSizes> BlockModeDecClosure for DecScript<'_, BS> {
                 let (head, tail) = rest.split_at(k);
                 backend.decrypt_tail_blocks(head);
                 rest = tail;
-            } else if c == 0 && rng.chance(1, 3) {
+            } else if c == 0 && rng.chance(1, 3) && self.inplace {
                 // the in-place convenience of the backend: legal on any buffer pair once the input
                 // has been copied to the output side
                 let k = if w > 1 { 1 + rng.usize(n.min(w - 1)) } else { 1 };
@@ -212,7 +215,7 @@ impl<BS: BlockSizes> BlockModeDecClosure for DecScript<'_, BS> {
                     *b.get_out() = v;
                 }
                 let out = head.get_out();
-                if k == 1 || w == 1 {
+                if w == 1 || (k == 1 && rng.chance(1, 2)) {
                     for b in out.iter_mut() {
                         backend.decrypt_block_inplace(b);
                     }
@@ -292,11 +295,11 @@ where
                 .unwrap(),
             VIA_SCRIPT => {
                 let blocks = as_blocks_mut::<M::BlockSize>(out).into();
-                m.encrypt_with_backend(EncScript { blocks, seed });
+                m.encrypt_with_backend(EncScript { blocks, seed, inplace: via == VIA_SCRIPT });
             }
             VIA_SCRIPT_B2B => {
                 let blocks = InOutBuf::new(as_blocks::<M::BlockSize>(inp), as_blocks_mut::<M::BlockSize>(out)).unwrap();
-                m.encrypt_with_backend(EncScript { blocks, seed });
+                m.encrypt_with_backend(EncScript { blocks, seed, inplace: via == VIA_SCRIPT });
             }
             VIA_BLOCKS_INOUT_INPLACE => {
                 m.encrypt_blocks_inout(as_blocks_mut::<M::BlockSize>(out).into());
@@ -408,11 +411,11 @@ where
                 .unwrap(),
             VIA_SCRIPT => {
                 let blocks = as_blocks_mut::<M::BlockSize>(out).into();
-                m.decrypt_with_backend(DecScript { blocks, seed });
+                m.decrypt_with_backend(DecScript { blocks, seed, inplace: via == VIA_SCRIPT });
             }
             VIA_SCRIPT_B2B => {
                 let blocks = InOutBuf::new(as_blocks::<M::BlockSize>(inp), as_blocks_mut::<M::BlockSize>(out)).unwrap();
-                m.decrypt_with_backend(DecScript { blocks, seed });
+                m.decrypt_with_backend(DecScript { blocks, seed, inplace: via == VIA_SCRIPT });
             }
             VIA_BLOCKS_INOUT_INPLACE => {
                 m.decrypt_blocks_inout(as_blocks_mut::<M::BlockSize>(out).into());
